@@ -23,14 +23,15 @@ NPROC = int(os.environ.get('VERIF_JOBS', '16'))
 # ------------------------------------------------------------------ worker side
 
 _PROFILE_FUNCS = None
+_REPO_PREFIX = os.environ.get('VERIF_REPO', '/repo').rstrip('/') + '/nasim'
 
 
 def _profiler(frame, event, arg):
     if event == 'call':
         co = frame.f_code
         fn = co.co_filename
-        if fn.startswith('/repo/nasim'):
-            _PROFILE_FUNCS.add("%s:%s" % (fn[len('/repo/'):], co.co_qualname))
+        if fn.startswith(_REPO_PREFIX):
+            _PROFILE_FUNCS.add("%s:%s" % (fn[len(_REPO_PREFIX) - 5:], co.co_qualname))
 
 
 def worker(task):
@@ -284,8 +285,9 @@ def write_evidence(report, mod, exhaustive, violations, extra_cov=None):
     ev = dict(property_id=report.pid, tier=report.tier, seed=report.seed, level="model_checking",
               coverage=cov, assumptions=list(getattr(mod, 'ASSUMPTIONS', [])),
               wall_s=round(time.time() - report.t0, 2), violations=violations)
-    os.makedirs(os.path.join(VERIF, 'evidence'), exist_ok=True)
-    path = os.path.join(VERIF, 'evidence', '%s.json' % report.pid)
+    evdir = os.environ.get('VERIF_EVIDENCE_DIR') or os.path.join(VERIF, 'evidence')
+    os.makedirs(evdir, exist_ok=True)
+    path = os.path.join(evdir, '%s.json' % report.pid)
     tmp = path + '.tmp'
     with open(tmp, 'w') as f:
         json.dump(ev, f, indent=1, default=str)
